@@ -262,8 +262,16 @@ func (c *clusterClient) DownloadBlob(ctx context.Context, namespace string, d co
 
 	log.WithTraceContext(ctx).With("namespace", namespace, "digest", d.Hex()).Debug("Starting blob download from origin cluster")
 
+	// dst cannot be rewound: once an origin has failed in the middle of the
+	// transfer, another attempt would append the blob to the bytes already
+	// written. Only attempts which start from an untouched dst are allowed.
+	cw := &countingWriter{w: dst}
 	err := Poll(c.resolver, c.defaultPollBackOff(), d, func(client Client) error {
-		return client.DownloadBlob(ctx, namespace, d, dst)
+		if cw.n > 0 {
+			return fmt.Errorf(
+				"not retried: %d bytes of a failed transfer were already written to the destination", cw.n)
+		}
+		return client.DownloadBlob(ctx, namespace, d, cw)
 	})
 	if httputil.IsNotFound(err) {
 		span.SetStatus(codes.Error, "blob not found")
@@ -353,6 +361,18 @@ func (c *clusterClient) ReplicateToRemote(namespace string, d core.Digest, remot
 	return Poll(c.resolver, c.defaultPollBackOff(), d, func(client Client) error {
 		return client.ReplicateToRemote(namespace, d, remoteDNS)
 	})
+}
+
+// countingWriter counts the bytes written to w.
+type countingWriter struct {
+	w io.Writer
+	n int64
+}
+
+func (c *countingWriter) Write(p []byte) (int, error) {
+	n, err := c.w.Write(p)
+	c.n += int64(n)
+	return n, err
 }
 
 func shuffle(cs []Client) {
